@@ -46,6 +46,9 @@ def cases(tier, seed):
             out.append(('unit_%s_%s_%s' % (u1, u2, shp), dict(kind='unit', u1=u1, u2=u2, shp=shp)))
     for cid, shape, kw in IRREGULAR:
         out.append(('irregular_' + cid, dict(kind='irregular', shape=shape, kw=kw)))
+    # coarse-frequency assets on a grid with unequal fine steps: volumes follow each minor step's own length (C13 machinery)
+    out.append(('irregular_coarse_contract_dst', dict(kind='coarse13', opt='coarse', kind13='contract', T=4, coarse='2d', freq=('d', '2021-03-27', '2021-03-31', 'CET'))))
+    out.append(('irregular_coarse_transport_dst', dict(kind='coarse13', opt='coarse', kind13='transport', T=4, coarse='2d', eff=0.5, freq=('d', '2021-10-30', '2021-11-03', 'CET'))))
     return out
 
 
@@ -117,7 +120,18 @@ def build_unit(D, shp, unit):
     return pf.setup_optim_problem(prices, tg)
 
 
+def _c13_kw(kw):
+    kw = dict(kw)
+    kw['kind'] = kw.pop('kind13')
+    return kw
+
+
 def run_case(case_id, tier, seed, kind, **kw):
+    if kind == 'coarse13':
+        from . import c13
+        res = c13.run_case(case_id, tier, seed, **_c13_kw(kw))
+        res['prop'] = PROP
+        return res
     rec = lpsem.Rec(PROP, case_id)
     if kind == 'irregular':
         return run_irregular(rec, seed, **kw)
@@ -202,6 +216,9 @@ def observe(case, kwargs, env, rq):
     D = lift.Domain(theta=env)
     kw = dict(kwargs)
     kind = kw.pop('kind')
+    if kind == 'coarse13':
+        from . import c13
+        return c13.observe(case, _c13_kw(kw), env, rq)
     if kind == 'irregular':
         sc = scen.run(D, kw['shape'], kw['kw'], None, False, env=env)
         if rq.get('kind') != 'replay':
@@ -221,6 +238,9 @@ def judge(case, kwargs, cand, ans):
         return (True, 'raises on an in-domain input: ' + ans['error'][:200]) if 'error' in ans else (False, 'no exception')
     if 'error' in ans:
         return None, ans['error']
+    if kwargs.get('kind') == 'coarse13':
+        from . import c13
+        return c13.judge(case, _c13_kw({k: v for k, v in kwargs.items() if k != 'kind'}), cand, ans)
     if kwargs.get('kind') == 'irregular':
         return embed_ref.judge(cand, ans)
     from .. import replay
